@@ -41,6 +41,8 @@ SIG_F2 = ("C09:F2 BalancingLearner.tell_pending leaves _pending_loss stale (C15:
           "differs from ask(tell_pending=False) followed by tell_pending of each point")
 SIG_F10 = ("C09:F10 Learner2D.ask(tell_pending=False) rewrites _stack (and leaves the combined interpolator stale): repeated and "
            "later answers differ from an untouched twin")
+SIG_F27 = ("C09:F27 Learner2D interpolates over pending_points in set iteration order: after a snapshot/restore (BalancingLearner."
+           "ask(tell_pending=False)) the same pending points give answers that differ in the last digits and then in the point chosen")
 SIG_F17 = ("C09:F17 BalancingLearner.ask(tell_pending=False) resets AverageLearner1D children to default parameters "
            "(restore via __setstate__ re-runs __init__ without delta/alpha/min_samples/...)")
 
@@ -117,6 +119,7 @@ def pre_state(ad, l):
         if ad.child.spec["kind"] == "Avg1D":
             st["params"] = [avg1d_params(c) for c in l.learners]
     st["l2d_stack"] = [G.canon(list(b._stack.items())) for a, b in leaves(ad, l) if a.spec["kind"] == "L2D"]
+    st["l2d_pending_order"] = [list(b.pending_points) for a, b in leaves(ad, l) if a.spec["kind"] == "L2D"]
     st["under_order"] = [list(b._undersampled_points) for a, b in leaves(ad, l) if a.spec["kind"] == "Avg1D"]
     for a, b in leaves(ad, l):
         if a.spec["kind"] == "Int":
@@ -213,15 +216,26 @@ def script_long(rng):
     return [("ask", rng.choice([4, 5, 6])), ("ask", 4), ("tell", 3), ("ask", rng.choice([4, 5])), ("tell", 4), ("ask", 4)]
 
 
-def run_continuation(ad, X, B, rng, script=None, who="the untouched twin"):
-    """Same ops on the probed learner X and the reference twin B; first difference or None."""
+def _same_answer(ob, ox, imp_rel):
+    if G.answer_key(ob) == G.answer_key(ox):
+        return True
+    if not imp_rel or G.is_exc(ob) or G.is_exc(ox) or ob[0] != "ask" or ox[0] != "ask":
+        return False
+    import math
+    return G.canon(ob[1]) == G.canon(ox[1]) and len(ob[2]) == len(ox[2]) and \
+        all(a == b or math.isclose(a, b, rel_tol=imp_rel) for a, b in zip(ob[2], ox[2]))
+
+
+def run_continuation(ad, X, B, rng, script=None, who="the untouched twin", imp_rel=0.0):
+    """Same ops on the probed learner X and the reference twin B; first difference or None.  imp_rel > 0: the loss
+    improvements (not the points) are compared to that relative tolerance."""
     script = script if script is not None else script_standard(rng)
     got = []
     for what, k in script:
         if what in ("ask", "askf", "discard"):
             op = ["remove_unfinished"] if what == "discard" else ["ask", k, what == "ask"]
             ob, ox = G.apply_op(ad, B, op), G.apply_op(ad, X, op)
-            if G.answer_key(ob) != G.answer_key(ox):
+            if not _same_answer(ob, ox, imp_rel):
                 return f"{op} answered {G.short(ox)} but {who} answered {G.short(ob)}", op
             if G.is_exc(ob):
                 return None, None
@@ -260,7 +274,35 @@ def unobserved_experiment(ad, H, n, seed, counterfactual=False):
     return run_continuation(ad, A0, B0, rng, script_resume(rng), "the twin that was never asked nor observed")[0]
 
 
-def probe_state(ad, H, n, seed):
+class _SortedPendingInterp:
+    """Counterfactual used only for attribution (F27): Learner2D._data_interp reading the pending points in sorted order."""
+
+    def __enter__(self):
+        from adaptive.learner import learner2D as m
+        self.m, self.orig = m, m.Learner2D._data_interp
+
+        def _data_interp(lrn):
+            if not lrn.pending_points:
+                return self.orig(lrn)
+            saved = lrn.pending_points
+            lrn.pending_points = _SortedSet(saved)
+            try:
+                return self.orig(lrn)
+            finally:
+                lrn.pending_points = saved
+        m.Learner2D._data_interp = _data_interp
+        return self
+
+    def __exit__(self, *a):
+        self.m.Learner2D._data_interp = self.orig
+
+
+class _SortedSet(set):
+    def __iter__(self):
+        return iter(sorted(set.__iter__(self)))
+
+
+def probe_state(ad, H, n, seed, _counterfactual=False):
     """The C09 experiment at the state reached by history H.  Returns a list of
     (signature, what) -- empty when everything holds."""
     name = G.spec_name(ad.spec)
@@ -272,6 +314,7 @@ def probe_state(ad, H, n, seed):
     mech = known_mechanism(ad, A, pre)
     if mech:
         return [(mech[0], f"{name} after {len(H)} ops, ask({n}, tell_pending=False): {mech[1]}")], True
+    post_l2d_stack = [G.canon(list(b._stack.items())) for a, b in leaves(ad, A) if a.spec["kind"] == "L2D"]
     s1 = G.snapshot(ad, A)
     r2 = G.apply_op(ad, A, ["ask", n, False])
     mech = known_mechanism(ad, A, pre)
@@ -297,10 +340,14 @@ def probe_state(ad, H, n, seed):
     msg_u = unobserved_experiment(ad, H, n, seed)
     if msg_u:
         generic.append(("later-unobserved", msg_u))
-    if generic and G.base_kind(ad.spec) == "L2D":
-        now = [G.canon(list(b._stack.items())) for a, b in leaves(ad, A) if a.spec["kind"] == "L2D"]
-        if now != pre["l2d_stack"]:
-            return [(SIG_F10, f"{name} after {len(H)} ops: {generic[0][1]}; the learner's _stack is not what it was before the calls")], True
+    if generic and G.base_kind(ad.spec) == "L2D" and not _counterfactual:
+        if post_l2d_stack != pre["l2d_stack"]:
+            return [(SIG_F10, f"{name} after {len(H)} ops: {generic[0][1]}; the learner's _stack is not what it was before the call")], True
+        with _SortedPendingInterp():
+            cf, _ = probe_state(ad, H, n, seed, _counterfactual=True)
+        if not cf:
+            return [(SIG_F27, f"{name} after {len(H)} ops: {generic[0][1]} (vanishes when Learner2D reads its pending points in "
+                              f"sorted order)")], True
     if generic and is_bal and chg:
         attrs = sorted({a for v in chg.values() for a in v})
         if G.base_kind(ad.spec) in ("L1D", "Avg1D") and set(attrs) <= L1D_REBUILD_ATTRS:
@@ -356,13 +403,17 @@ def probe_state(ad, H, n, seed):
         if G.base_kind(ad.spec) == "L2D":
             # Learner2D interpolates over the pending points with qhull: the expected loss depends, in the last digits,
             # on the ORDER in which the same pending points were inserted -- compared to 1e-5 relative
-            d = [k for k in d if not (k in ("loss_exp", "fresh_exp") and _close(sc[k], sd[k]))]
+            d = [k for k in d if not (k in ("loss_exp", "fresh_exp", "child_exp") and _close(sc[k], sd[k]))]
         if bad is not None:
             fails.append((f"C09:{G.spec_name(_sig_spec(ad.spec))}:commit-state",
                           f"{name} after {len(H)} ops: tell_pending of a point returned by ask({n}, False) raised {G.short(bad)}"))
         elif d and is_bal and set(d) <= {"loss_exp", "loss_real", "fresh_exp", "fresh_real"} and _equal_without_loss_caches(ad, C, D):
             return [(SIG_F2, f"{name} after {len(H)} ops: after ask({n}, True) loss(real=False) = {G.short(sc['loss_exp'])} but after "
                              f"ask({n}, False) + tell_pending(each) {G.short(sd['loss_exp'])} (equal once _loss/_pending_loss are dropped)")], True
+        elif d and G.base_kind(ad.spec) == "L2D" and \
+                [G.canon(list(b._stack.items())) for a, b in leaves(ad, C)] != [G.canon(list(b._stack.items())) for a, b in leaves(ad, D)]:
+            return [(SIG_F10, f"{name} after {len(H)} ops: after ask({n}, True) {d[0]} = {G.short(sc[d[0]])} but after ask({n}, False) + "
+                              f"tell_pending(each) {G.short(sd[d[0]])}; the Learner2D stacks of the two twins differ")], True
         elif d:
             fails.append((f"C09:{G.spec_name(_sig_spec(ad.spec))}:commit-state",
                           f"{name} after {len(H)} ops: after ask({n}, True) {d[0]} = {G.short(sc[d[0]])} but after ask({n}, False) + "
@@ -380,7 +431,10 @@ def probe_state(ad, H, n, seed):
                     # cannot know about it).  Not bookkeeping in the sense of the property: the twins are aligned here.
                     restore_balancing_private(D, save_balancing_private(D)[:3] + (cycle_pos(C),))
             rng = random.Random(seed + 13)
-            m, _ = run_continuation(ad, C, D, rng, script_long(rng), f"the twin that did ask({n}, False) + tell_pending(each)")
+            # LearnerND: the sub-triangulations of the two twins hold the same simplices built in a different order; volumes
+            # (hence loss improvements) may differ in the last bit -- points exact, improvements to 1e-9 relative
+            tol = 1e-9 if G.base_kind(ad.spec) == "LND" else 0.0
+            m, _ = run_continuation(ad, C, D, rng, script_long(rng), f"the twin that did ask({n}, False) + tell_pending(each)", imp_rel=tol)
             if m and is_bal:
                 known = attribute_commit_later(ad, H, n, seed, rd)
                 if known:
